@@ -10,7 +10,7 @@ use std::collections::{BTreeMap, BTreeSet};
 use vh::persist_kit::{client_view, project};
 use vh::resp;
 
-pub const SIM_OPS: &[&str] = &["SET k a", "SET k b", "DEL k", "SET j z", "SET k e EX 100", "SET k c NX", "DEL k j"];
+pub const SIM_OPS: &[&str] = &["SET k a", "SET k b", "DEL k", "SET j z", "SET k e EX 100", "SET k c NX", "DEL k j", "SET k q PX 500"];
 
 #[derive(Clone, Debug, PartialEq, Eq)]
 pub enum Ev {
@@ -113,7 +113,7 @@ impl W {
                 RespValue::BulkString(None) => continue,
                 o => format!("?{}", resp::show(&o)),
             };
-            let ttl = resp::show(&node.executor.execute(&Command::Ttl(key.to_string())));
+            let ttl = resp::show(&node.executor.execute(&Command::Pttl(key.to_string())));
             out.insert(key.to_string(), format!("{v} ttl{ttl}"));
         }
         out
@@ -126,7 +126,7 @@ impl W {
             let cv = client_view(v);
             if cv != "absent" {
                 let ttl = match v.expiry_ms {
-                    Some(ms) => format!(":{}", ms / 1000),
+                    Some(ms) => format!(":{}", ms),
                     None => ":-1".to_string(),
                 };
                 views.insert(k.clone(), format!("{cv} ttl{ttl}"));
